@@ -37,6 +37,7 @@ class Tracer:
         self.depth = 0           # > 0 while inside a traced os-level call (nested calls are not ops)
         self.restore = []        # (object, attribute, original) for uninstall
         self.snaps = {}          # op index -> [{"mode","frac","dest"}]: directory snapshots to take
+        self.watch = {}          # realpath of a file outside the directory -> name under which it is traced
         self.snap_cb = None      # or: callback(k, kind, name, open_names) -> [{"mode","frac","dest"}]
         self.snaps_taken = []
 
@@ -46,6 +47,8 @@ class Tracer:
             p = os.path.realpath(os.fspath(path))
         except TypeError:
             return None
+        if p in self.watch:
+            return self.watch[p]
         if p == self.odir:
             return "."
         if p.startswith(self.odir + os.sep):
@@ -448,6 +451,16 @@ def run_one(spec, in_process=False):
     header["pre"] = pre
     tr = Tracer(odir, int(spec["crash_at"]), spec.get("mode", "kill"), float(spec.get("frac", 0.5)), spec["out"])
     tr.header = header
+    # resume: False | True | "ext" (string naming the existing checkpoint case["_ext_path"], outside
+    # the output directory) | "missing" (string naming no existing file)
+    resume = spec["resume"]
+    if resume == "ext":
+        resume = spec["case"]["_ext_path"]
+        tr.watch[os.path.realpath(resume)] = "@ext"
+    elif resume == "missing":
+        resume = os.path.join(os.path.dirname(odir.rstrip("/")), "no_such_checkpoint.pkl")
+    else:
+        resume = bool(resume)
     rule = spec.get("snap_rule")
     if rule:
         def snap_cb(k, kind, name, open_names):
@@ -464,7 +477,7 @@ def run_one(spec, in_process=False):
 
     tr.install()
     try:
-        samples, state = jft.optimize_kl(lh, pos0, odir=odir, resume=bool(spec["resume"]), callback=callback, **kw)
+        samples, state = jft.optimize_kl(lh, pos0, odir=odir, resume=resume, callback=callback, **kw)
         out = {"outcome": "ok", "final": canon(samples, state)}
     except BaseException as e:                                    # noqa: resume impossible etc.
         out = {"outcome": "raised", "error": type(e).__name__, "detail": str(e).replace(os.path.realpath(odir), "<odir>").replace(odir, "<odir>")[:200]}
